@@ -12,7 +12,7 @@ import numpy as np
 from .. import common as C
 
 PROP = "C01"
-GEN_REGIONS = ["CoreKernels", "CudaKernels", "NumpyKernels"]
+GEN_REGIONS = ["CoreKernels", "CudaKernels", "NumpyKernels", "BuildQ"]
 THEOREMS = {
     "SpecKitV.Lemmas.Goertzel": ["goertzelS_dft", "forRange_goertzel", "segDFT_toC", "goertzel_pair_outputs", "goertzel_pair_segDFT"],
     "SpecKitV.Props.C01": [
@@ -35,8 +35,16 @@ THEOREMS = {
         "np_numba_agree_poly_auto", "np_numba_agree_poly_csd", "np_poly_csd_chunk_invariant",
         "np_auto_is_diag_win_only", "np_auto_is_diag_detrend0", "np_auto_is_diag_poly",
         "np_cross_is_X_conjY_win_only", "np_cross_is_X_conjY_detrend0", "np_cross_is_X_conjY_poly", "np_poly_csd_M2_nonneg"],
+    # `_build_Q` TRANSLATED from core.py each run (Gen/BuildQ.lean) satisfies the basis contract, so the polynomial kernels of the three backends called
+    # with the library's own basis equal the reference estimator of order p (L >= p+1), and give all-zero statistics on short segments
+    "SpecKitV.Props.BuildQGen": ["BuildQ.gen_build_Q_none", "BuildQ.gen_build_Q_isPolyBasis", "BuildQ.libQ_eq_some", "BuildQ.libQ_isPolyBasis", "BuildQ.libQ_m", "BuildQ.libQ_ortho", "BuildQ.stats_poly_csd_libQ_eq_ref", "BuildQ.stats_poly_auto_libQ_eq_ref", "BuildQ.stats_poly_csd_cuda_libQ_eq_ref", "BuildQ.stats_poly_auto_cuda_libQ_eq_ref", "BuildQ.np_poly_csd_libQ_eq_ref", "BuildQ.np_poly_auto_libQ_eq_ref", "BuildQ.stats_poly_csd_libQ_short", "BuildQ.stats_poly_auto_libQ_short", "BuildQ.stats_poly_csd_cuda_libQ_short", "BuildQ.stats_poly_auto_cuda_libQ_short", "BuildQ.np_poly_csd_libQ_short", "BuildQ.np_poly_auto_libQ_short", "BuildQ.stats_poly_csd_libQ_L1", "BuildQ.stats_poly_auto_libQ_L1"],
 }
 CONTRACTS = ["np.linalg.qr (through _build_Q) returns a basis Q; the kernels are proved equal to the estimator that subtracts Q Qᵀ seg for ANY Q",
+             # contracts of the NumPy routines the translated _build_Q refers to (definitions in lean/SpecKitV/Np/BuildQ.lean; differential run in C08)
+             "Np.linspace lo hi n = np.linspace(lo, hi, n) (entry i = i*((hi-lo)/(n-1)) + lo, last entry overwritten by hi, n = 1: the single point lo); "
+             "Np.ones n = np.ones(n); Np.stackCols = np.stack([...], axis=1); Np.qrReducedQ V = np.linalg.qr(V, mode='reduced')[0] up to the sign of each "
+             "column (Gram-Schmidt of the first min(rows, cols) columns; the reduced QR factor of a matrix with independent leading columns is unique up to "
+             "these signs, and orthonormality, span and the projector Q Qᵀ do not depend on them)",
              "CUDA kernels are translated from core_cuda.py source and executed only under Numba's CUDA simulator",
              # contracts of the NumPy operations the translated fallbacks refer to (definitions in lean/SpecKitV/Np/NumpyKernels.lean)
              "Np.sliceBound / Np.slice = v[lo:hi] (Python slice bounds: negative from the end, clamped; empty when hi <= lo)",
